@@ -42,7 +42,7 @@ def url(rng):
         u += b"@"
     r = rng.random()
     if r < 0.5:
-        u += pct(rng, domain(rng), 0.1)
+        u += pct(rng, domain(rng), 0.1) + (b"." if rng.random() < 0.1 else b"")      # fully qualified spelling with a trailing dot
     elif r < 0.7:
         u += ipv4(rng)
     elif r < 0.8:
@@ -155,6 +155,32 @@ def xor_document(rng):
     return head + b"\r\n".join(stmt() for _ in range(rng.randint(2, 3)))
 
 
+def tiny_pe():
+    import struct
+    pe = bytearray(0x200)
+    pe[0:2] = b"MZ"
+    struct.pack_into("<I", pe, 0x3C, 0x80)
+    pe[0x80:0x84] = b"PE\0\0"
+    struct.pack_into("<HHIIIHH", pe, 0x84, 0x14C, 1, 0, 0, 0, 0xE0, 0x102)
+    struct.pack_into("<H", pe, 0x98, 0x10B)
+    pe[0x178:0x180] = b".text\0\0\0"
+    struct.pack_into("<IIII", pe, 0x180, 0x200, 0x1000, 0x40, 0x200)
+    return bytes(pe) + b"\x90" * 0x40
+
+
+def depth_mix_document(rng):
+    """the SAME payload (a URL text, an e-mail, a parseable PE file) at two different decoding depths in one document, the deeper copy first or last:
+    what is found in one place must not depend on the other having been found (at any depth limit)"""
+    payload = rng.choice([b"junk" + tiny_pe(), b"drop " + tiny_pe(), b"GET http://evil.example.com/payload.exe now", b"mail admin@corp-mail.example.org the loot"])
+    def wrap(text, k):
+        for _ in range(k):
+            text = base64.b64encode(text) if rng.random() < 0.7 else text.hex().encode()
+        return text
+    a, b = wrap(rng.choice([b"x ", b""]) + payload, 2), wrap(payload, 1)
+    parts = [a, b] if rng.random() < 0.5 else [b, a]
+    return b"s1 = " + parts[0] + b" ;\r\ns2 = " + parts[1] + b" ;"
+
+
 def splice(rng, n=None):
     k = n or rng.randint(1, 6)
     return b"".join(rng.choice(FRAGMENTS) if rng.random() < 0.8 else bytes(rng.randrange(256) for _ in range(rng.randint(1, 4))) for _ in range(k))
@@ -241,5 +267,5 @@ def gen_inputs(rng, n, kinds=("indicator", "shell", "stack", "splice", "regex"))
                 out.append(embed(rng, splice(rng)))
         else:
             r = rng.random()
-            out.append(replace_special(rng) if r < 0.12 else xor_document(rng) if r < 0.3 else splice(rng))
+            out.append(replace_special(rng) if r < 0.12 else xor_document(rng) if r < 0.3 else depth_mix_document(rng) if r < 0.36 else splice(rng))
     return out
